@@ -3,6 +3,32 @@ import json, os
 V = os.path.dirname(os.path.dirname(os.path.abspath(__file__)))
 props = [json.loads(l)["id"] for l in open(os.path.join(V, "properties.jsonl"))]
 CHECKS = {
+ "C12": dict(
+   text="Coq theorems (Props/C12.v; proofs Fs/CheckProofs.v) over the models of check_command (cwd = codebase root) and "
+        "scan_path sharing the walk, the exclusion test and the analysis oracle: a file scan analyses, reached as a relative "
+        "file path or through ANY directory above it, is listed by check with exactly the functions longer than 30 lines of "
+        "scan's result, longest first (stable), once; excluded files are skipped however reached; hidden files are skipped "
+        "through a directory above; from the root the two lists are literally equal; exit status 1 iff a length > 60.  The "
+        "'same decoding' clause was a genuine defect (GD5, fixed); trees with hidden / excluded / unsupported / non-UTF-8 "
+        "files are run through check_command in five ways and compared with scan_path and the Coq model.",
+   note="Trusted: Coq kernel; hand models Fs/CheckCmd.v, FsScan.v (tie H); that check and scan call the same reader and "
+        "scan_file is established by the differential run, pathspec / lexer table are oracles.",
+   technique="Rocq proof (tree induction, shared-walk refinement between check and scan) + five-ways differential runs",
+   ref="DESIGN.md section 5, C12"),
+ "C06": dict(
+   text="Partial by nature.  Proved (Props/C06.v; Agg/PermProofs.v): the aggregation of a codebase is invariant under the "
+        "order in which files are analysed — same files, same per-language totals, same folder keys and profiles, entries "
+        "equal up to order (and a computed example shows that plain equality would be false: order IS visible in key order); "
+        "all model functions are pure functions of language and tokens, the matcher model works on canonical (sorted, "
+        "duplicate-free) state sets and tries every transition, so no set-iteration order can influence a result.  Exercised, "
+        "not provable: corpus + generated + malformed files analysed in sub-processes under 8/64 PYTHONHASHSEED values, in "
+        "shuffled / reversed orders, twice in a row; trees scanned with os.walk permuted; digests and canonical reports must "
+        "coincide.",
+   note="CPython hashing, os.walk order and object aliasing between analyses (deepcopy of predicates) live in the run-time: "
+        "they are validated by the harness, not modelled.  Trusted: Coq kernel; Codebase model (tie H).",
+   technique="Rocq proof of order-invariance of aggregation + purity by construction; hash-seed / traversal-order differential runs",
+   ref="DESIGN.md section 5, C06"),
+
  "C09": dict(
    text="Coq theorems (Props/C09.v; proofs Fs/FsProofsCache.v) over the state machine Fs/Cache.v of edits (write, delete, "
         "rename, touch, swap), exclusion changes, cache replacement by another version / with altered entries, dropped "
